@@ -9,6 +9,8 @@ CONSTANTS
   AllowEmptyLeftover = FALSE
   CombinerClearsQueueOnFailedFlush = TRUE
   ReaderReportsHunks = TRUE
+  BkRechecksLock = TRUE
+  AllowConcurrent = FALSE
   GcStopsOnUnreadableHunk = TRUE
   Hash <- HashT
 INVARIANT Report
